@@ -104,11 +104,13 @@ Fixpoint lex_ge (l r : list N) : bool :=
   end.
 Definition left_right_switch (lists : bool) (l r : list N) : list N * list N :=
   if (if lists then lex_ge l r else all_ge l r) then (r, l) else (l, r).
+(* np.any(left > right): bounds that cross at some probability level are rejected *)
+Definition crosses (l r : list N) : bool := existsb (fun p => snd p <? fst p) (combine l r).
 Definition mk_staircase_gen (lists : bool) (l r : list N) : res pbox :=
   let '(l, r) := left_right_switch lists l r in
   let l := bound_steps_check l in let r := bound_steps_check r in
   if negb (Nat.eqb (length l) (length r)) then Raise AssertionErr
-  else if is_increasing l && is_increasing r then Ok (l, r) else Raise NotIncreasing.
+  else if is_increasing l && is_increasing r then (if crosses l r then Raise ValueErr else Ok (l, r)) else Raise NotIncreasing.
 Definition mk_staircase := mk_staircase_gen false.
 Definition mk_staircase_lists := mk_staircase_gen true.
 
